@@ -41,97 +41,107 @@ def stream(ctx, n, order, tts, positions=None, total=None):
             full[j] = rest[j - n]
         M = Mgr(ctx, f'sat n={n} order={order} at levels {positions} of {total}', total, full)
     rng = ctx.rng
+    undeclared = False
     for t0 in tts:
         u0 = gen.build_tt(M.s, M.m, t0, list(range(n)))
         if u0 is None:
             continue
         M.op('incref', u0)
-        for sign in (1, -1):
-            u = sign * u0
-            t = t0 if sign == 1 else T.neg(t0, n)
-            sup = sorted(T.support(t, n))
-            k = len(sup)
-            nontriv = t not in (0, T.full(n))
-            # support / is_essential
-            r = M.op('support', u)
-            ctx.case((n, order, 'support', t), nontriv)
-            if r is None or sorted(r) != sup:
-                ctx.violation('C10:support', f'support of {t:#x} is {r}, expected {sup}', M.case())
-            for j in range(n):
-                e = M.op('is_essential', u, j)
-                if e != (j in sup):
-                    ctx.violation('C10:is_essential', f'is_essential({j}) = {e} for {t:#x}', M.case())
-            # count
-            nsat = T.count(t) >> (n - k)   # models over the support
-            for nn in [None] + list(range(0, k + 4)):
-                r = M.op('count', u, nn)
-                ctx.case((n, order, 'count', t, nn), nontriv)
-                ctx.count('count')
-                if nn is not None and nn < k:
-                    if r is not None:
-                        ctx.violation('C10:count-accepted',
-                                      f'count(n={nn}) accepted although the support has {k} variables', M.case())
-                else:
-                    e = nsat << ((k if nn is None else nn) - k)
-                    if r != e:
-                        ctx.violation('C10:count', f'count({t:#x}, n={nn}) = {r}, expected {e}', M.case())
-            # pick_iter over care sets
-            cares = [None]
-            for r_ in range(n + 1):
-                for c in itertools.combinations(range(n), r_):
-                    cares.append(list(c))
-            if len(cares) > 9:
-                cares = [None] + rng.sample(cares[1:], 8)
-            for care in cares:
-                got = M.op('pick_iter', u, care)
-                ctx.case((n, order, 'pick_iter', t, None if care is None else tuple(care)), nontriv)
-                ctx.count('pick_iter')
-                if got is None:
-                    ctx.violation('C10:pick_iter-rejected', 'pick_iter rejected valid arguments', M.case())
-                    continue
-                cset = set(sup) if care is None else set(care)
-                seen = set()
-                covered = 0
-                ok = True
-                for a in got:
-                    d = dict(a)
-                    if not cset <= set(d):
-                        ctx.violation('C10:pick_iter-care',
-                                      f'assignment {d} does not mention every care variable {sorted(cset)}', M.case())
-                        ok = False
-                        break
-                    if T.cofactor(t, n, d) != T.full(n):
-                        ctx.violation('C10:pick_iter-not-model',
-                                      f'assignment {d} does not force {t:#x}', M.case())
-                        ok = False
-                        break
-                    f = frozenset(d.items())
-                    if f in seen:
-                        ctx.violation('C10:pick_iter-duplicate', f'assignment {d} yielded twice', M.case())
-                        ok = False
-                        break
-                    seen.add(f)
-                if ok:
-                    # pairwise incompatible and jointly covering all models
-                    cover = 0
-                    for f in seen:
-                        c = T.full(n)
-                        for j, bval in f:
-                            c &= T.var(j, n) if bval else T.neg(T.var(j, n), n)
-                        if cover & c:
-                            ctx.violation('C10:pick_iter-overlap', f'assignments overlap at {dict(f)}', M.case())
-                        cover |= c
-                    if cover != t:
-                        ctx.violation('C10:pick_iter-cover',
-                                      f'assignments cover {cover:#x}, function is {t:#x}', M.case())
-                    if care is None and len(seen) != nsat:
-                        ctx.violation('C10:pick_iter-count',
-                                      f'{len(seen)} assignments over the support, count says {nsat}', M.case())
-                p = M.op('pick', u, care)
-                if (p is None) != (t == 0):
-                    ctx.violation('C10:pick-none', f'pick = {p} for {t:#x}', M.case())
-                elif p is not None and frozenset(dict(p).items()) not in seen:
-                    ctx.violation('C10:pick-not-in-iter', f'pick {p} is not among pick_iter', M.case())
+        for rnd in (0, 1):
+            if rnd == 1:
+                # the same questions again after the unused variables were removed (levels
+                # renumbered, no collection): nothing remembered about a node may survive
+                if positions is None or undeclared:
+                    break
+                M.op('undeclare', list(range(n, total)))
+                undeclared = True
+                ctx.count('after-undeclare')
+            for sign in (1, -1):
+                u = sign * u0
+                t = t0 if sign == 1 else T.neg(t0, n)
+                sup = sorted(T.support(t, n))
+                k = len(sup)
+                nontriv = t not in (0, T.full(n))
+                # support / is_essential
+                r = M.op('support', u)
+                ctx.case((n, order, 'support', t), nontriv)
+                if r is None or sorted(r) != sup:
+                    ctx.violation('C10:support', f'support of {t:#x} is {r}, expected {sup}', M.case())
+                for j in range(n):
+                    e = M.op('is_essential', u, j)
+                    if e != (j in sup):
+                        ctx.violation('C10:is_essential', f'is_essential({j}) = {e} for {t:#x}', M.case())
+                # count
+                nsat = T.count(t) >> (n - k)   # models over the support
+                for nn in [None] + list(range(0, k + 4)):
+                    r = M.op('count', u, nn)
+                    ctx.case((n, order, 'count', t, nn), nontriv)
+                    ctx.count('count')
+                    if nn is not None and nn < k:
+                        if r is not None:
+                            ctx.violation('C10:count-accepted',
+                                          f'count(n={nn}) accepted although the support has {k} variables', M.case())
+                    else:
+                        e = nsat << ((k if nn is None else nn) - k)
+                        if r != e:
+                            ctx.violation('C10:count', f'count({t:#x}, n={nn}) = {r}, expected {e}', M.case())
+                # pick_iter over care sets
+                cares = [None]
+                for r_ in range(n + 1):
+                    for c in itertools.combinations(range(n), r_):
+                        cares.append(list(c))
+                if len(cares) > 9:
+                    cares = [None] + rng.sample(cares[1:], 8)
+                for care in cares:
+                    got = M.op('pick_iter', u, care)
+                    ctx.case((n, order, 'pick_iter', t, None if care is None else tuple(care)), nontriv)
+                    ctx.count('pick_iter')
+                    if got is None:
+                        ctx.violation('C10:pick_iter-rejected', 'pick_iter rejected valid arguments', M.case())
+                        continue
+                    cset = set(sup) if care is None else set(care)
+                    seen = set()
+                    covered = 0
+                    ok = True
+                    for a in got:
+                        d = dict(a)
+                        if not cset <= set(d):
+                            ctx.violation('C10:pick_iter-care',
+                                          f'assignment {d} does not mention every care variable {sorted(cset)}', M.case())
+                            ok = False
+                            break
+                        if T.cofactor(t, n, d) != T.full(n):
+                            ctx.violation('C10:pick_iter-not-model',
+                                          f'assignment {d} does not force {t:#x}', M.case())
+                            ok = False
+                            break
+                        f = frozenset(d.items())
+                        if f in seen:
+                            ctx.violation('C10:pick_iter-duplicate', f'assignment {d} yielded twice', M.case())
+                            ok = False
+                            break
+                        seen.add(f)
+                    if ok:
+                        # pairwise incompatible and jointly covering all models
+                        cover = 0
+                        for f in seen:
+                            c = T.full(n)
+                            for j, bval in f:
+                                c &= T.var(j, n) if bval else T.neg(T.var(j, n), n)
+                            if cover & c:
+                                ctx.violation('C10:pick_iter-overlap', f'assignments overlap at {dict(f)}', M.case())
+                            cover |= c
+                        if cover != t:
+                            ctx.violation('C10:pick_iter-cover',
+                                          f'assignments cover {cover:#x}, function is {t:#x}', M.case())
+                        if care is None and len(seen) != nsat:
+                            ctx.violation('C10:pick_iter-count',
+                                          f'{len(seen)} assignments over the support, count says {nsat}', M.case())
+                    p = M.op('pick', u, care)
+                    if (p is None) != (t == 0):
+                        ctx.violation('C10:pick-none', f'pick = {p} for {t:#x}', M.case())
+                    elif p is not None and frozenset(dict(p).items()) not in seen:
+                        ctx.violation('C10:pick-not-in-iter', f'pick {p} is not among pick_iter', M.case())
         M.op('decref', u0)
     ctx.sample(dict(stream=M.s.label, first_lines=M.s.lines[:8]))
 
